@@ -132,7 +132,7 @@ theorem visit_tag (t : Ty) (v : Val) (m : Nat) (acc : List Ev) (rest : Bytes)
     | none => simp [hs] at hv
     | some sz =>
       simp only [hs, decide_eq_true_eq] at hv
-      rw [visitImpl_enum _ _ _ _ _ _ sz hs h.1.2 h.2]
+      rw [visitImpl_enum _ _ _ _ _ _ sz hs h.1.1.2 h.1.2 (by simpa using h.2)]
       simp only [encode, hs, Option.getD_some, readU_le_append sz raw rest hv, recorder_handle, events]
   | .struct n fs, .tup vs =>
     simp only [TyOk, Bool.and_eq_true] at h
